@@ -406,8 +406,33 @@ func (s *session) dumpOf(t *mpt.Trie, on string) map[string]any {
 		tree = expand(root.BytesBE(), nodes, 0)
 	}
 	// the root must not move because of reads
-	return map[string]any{"event": "dump", "on": on, "tree": tree, "gets": gets, "proofs": proofs,
+	ev := map[string]any{"event": "dump", "on": on, "tree": tree, "gets": gets, "proofs": proofs,
 		"root": hx(t.StateRoot().BytesBE()), "fresh": s.freshRoot(), "specroot": ""}
+	if d := jsonDepth(tree); d > 100 {
+		// the JSON reader of the judge nests at most 255 levels: very deep structures are judged through root, reads and
+		// proofs only (the root of a fresh trie with the same content is the same statement about the structure)
+		delete(ev, "tree")
+		ev["treedepth"] = d
+	}
+	return ev
+}
+
+func jsonDepth(v any) int {
+	switch x := v.(type) {
+	case map[string]any:
+		m := 0
+		for _, e := range x {
+			m = max(m, jsonDepth(e))
+		}
+		return m + 1
+	case []any:
+		m := 0
+		for _, e := range x {
+			m = max(m, jsonDepth(e))
+		}
+		return m + 1
+	}
+	return 0
 }
 
 type tamperRes struct {
